@@ -64,7 +64,7 @@ func waitLive(want int) int {
 }
 
 func checkC16(c *ctx) {
-	c.Rule = "every sequence up to length L (quick 4, thorough 6) over the events {open a handle with exclusion bitmap e0 and search, open with e1 and search, close the most recent handle, run one expiry pass of the cache (verif hook; the 1 s monitor is disabled)} on an opened segment, for pairs of exclusion bitmaps (one of them empty or nil); after every event the number of live native indexes, the presence of a cache entry, double closes and uses after close are compared with the extracted cache machine (VecCache.v, eviction decided by the observed idle bit AND refs <= 0); every search result is compared with the specification of a FRESH segment; finally handles are closed, an expiry pass runs and the segment is closed: nothing may remain; plus concurrent searchers with the expiry pass running (race detector); plus, on a segment with 1200 vectors (clustered index), ten filtered / unfiltered searches (k from 1 to 700, eligible fractions 1/10 to 4/5, exclusions) run in several orders with expiry passes in between - each answer must equal the same search on a freshly opened copy; plus rounds in which two vector fields are cached and expire in the same pass; plus rounds in which 8 goroutines make the first open of a field at the same instant (spin barrier) and the engine accounting must return to its base after the segment is closed; non-trivial = sequence with >= 2 opens with different bitmaps or an eviction between opens"
+	c.Rule = "every sequence up to length L (quick 4, thorough 6) over the events {open a handle with exclusion bitmap e0 and search, open with e1 and search, close the most recent handle, run one expiry pass of the cache (verif hook; the 1 s monitor is disabled)} on an opened segment, for pairs of exclusion bitmaps (one of them empty or nil); after every event the number of live native indexes, the presence of a cache entry, double closes and uses after close are compared with the extracted cache machine (VecCache.v, eviction decided by the observed idle bit AND refs <= 0); every search result is compared with the specification of a FRESH segment; finally handles are closed, an expiry pass runs and the segment is closed: nothing may remain; plus concurrent searchers with the expiry pass running (race detector); plus, on a segment with 1200 vectors (clustered index), ten filtered / unfiltered searches (k from 1 to 700, eligible fractions 1/10 to 4/5, exclusions) run in several orders with expiry passes in between - each answer must equal the same search on a freshly opened copy; plus a caller that owns ONE exclusion bitmap and rewrites it in place before each open (sets of equal size with other members); plus a handle kept open over 0..8 idle expiry passes followed by one or two more opens and a pass (the index must stay alive, be released once at the end); plus rounds in which two vector fields are cached and expire in the same pass; plus rounds in which 8 goroutines make the first open of a field at the same instant (spin barrier) and the engine accounting must return to its base after the segment is closed; non-trivial = sequence with >= 2 opens with different bitmaps or an eviction between opens"
 	c.Assumptions = append(c.Assumptions, "stand-in engine (see C14); the EWMA numerics of the expiry decision are not modelled: the model takes the observed 'idle' bit as an oracle and decides eviction by it AND by the reference count",
 		"data-race freedom observed with the race detector only")
 	// set once, before any vector-cache activity in this process, and never written again: the monitor
@@ -341,7 +341,7 @@ type faultScenario struct {
 }
 
 func checkC19(c *ctx) {
-	c.Rule = "fault enumeration through the stand-in engine: for each build and merge scenario (exact index; >= 1000 vectors so that Train / SetDirectMap occur; several vector fields; several input segments; a single contributing segment; fully deleted segments first / around the contributor) the fault-free run records how often each engine operation is called; then the n-th call of each operation (IndexFactory, SetDirectMap, Train, AddWithIDs, WriteIndexIntoBuffer, ReadIndexFromBuffer, ReconstructBatch) is made to fail, for EVERY n; the operation must return an error, a failed merge must leave no file, and the number of live native indexes must return to its value before the operation; outcome compared with the extracted model of the build / merge engine-call program (VecFault.v); non-trivial = a fault in a call other than the first"
+	c.Rule = "fault enumeration through the stand-in engine: for each build and merge scenario (exact index; >= 1000 vectors so that Train / SetDirectMap occur; several vector fields; several input segments; a single contributing segment; fully deleted segments first / around the contributor; memory-efficient fields; an input of 4200 live vectors) the fault-free run records how often each engine operation is called; then the n-th call of each operation (IndexFactory, SetDirectMap, Train, AddWithIDs, WriteIndexIntoBuffer, ReadIndexFromBuffer, ReconstructBatch) is made to fail, for EVERY n; the operation must return an error, a failed merge must leave no file, and the number of live native indexes must return to its value before the operation; outcome compared with the extracted model of the build / merge engine-call program (VecFault.v); non-trivial = a fault in a call other than the first"
 	c.Assumptions = append(c.Assumptions, "stand-in engine (see C14): its operations fail exactly where the injection says")
 	o := genVecOpts(c)
 	o.sim["vec"], o.sim["emb"] = "l2_norm", "dot_product"
